@@ -67,29 +67,60 @@ theorem takeSnapshot_rebase (c : Cfg) (o : List Obs) (b : Bool) (s : State) :
       · simp [he, hio]
       · simp [he, hio]; rfl
 
+theorem snapshotDue_rebase (c : Cfg) (o : List Obs) (b : Bool) (s : State) :
+    snapshotDue c (rebase o b s) = rebase2 o b (snapshotDue c s) := by
+  unfold snapshotDue
+  split <;> rfl
+
 /-- `yieldItem` after its first `let`. -/
 def yieldTail (c : Cfg) (s : State) (b : Nat) : State × Obs :=
-  if c.interval ≠ 0 ∧ (s.numYielded + 1) % c.interval = 0 then
-    match takeSnapshot c s with
-    | some s' => ({ s' with numYielded := s'.numYielded + 1 }, .item b)
-    | none => ({ s with mainSnaps := (popSnaps s.rcvdIdx s.mainSnaps none).2 }, .assertion)
-  else ({ s with numYielded := s.numYielded + 1 }, .item b)
+  if c.interval = 0 then ({ s with numYielded := s.numYielded + 1 }, .item b)
+  else
+    let d := snapshotDue c s
+    if d.2 then
+      match takeSnapshot c d.1 with
+      | some s' => ({ s' with numYielded := s'.numYielded + 1 }, .item b)
+      | none => ({ d.1 with mainSnaps := (popSnaps d.1.rcvdIdx d.1.mainSnaps none).2 }, .assertion)
+    else ({ d.1 with numYielded := d.1.numYielded + 1 }, .item b)
 
 theorem yieldItem_eq_tail (c : Cfg) (s : State) (r : Res) (b : Nat) :
     yieldItem c s r b = yieldTail c { s with lastW := r.w, wsnaps := applyDelta s.wsnaps r.w r.st } b := rfl
 
 theorem yieldTail_rebase (c : Cfg) (o : List Obs) (b : Bool) (t : State) (x : Nat) :
     yieldTail c (rebase o b t) x = rebase2 o b (yieldTail c t x) := by
-  have hn : (rebase o b t).numYielded = t.numYielded := rfl
   unfold yieldTail
-  rw [takeSnapshot_rebase, hn]
-  by_cases hd : c.interval ≠ 0 ∧ (t.numYielded + 1) % c.interval = 0
-  · rw [if_pos hd, if_pos hd]
-    cases takeSnapshot c t with
-    | none => rfl
-    | some t' => rfl
-  · rw [if_neg hd, if_neg hd]
-    rfl
+  by_cases h0 : c.interval = 0
+  · rw [if_pos h0, if_pos h0]; rfl
+  · rw [if_neg h0, if_neg h0]
+    dsimp only
+    rw [snapshotDue_rebase]
+    generalize snapshotDue c t = d
+    obtain ⟨d1, d2⟩ := d
+    cases d2
+    · rfl
+    · simp only [rebase2, if_true]
+      rw [takeSnapshot_rebase]
+      cases takeSnapshot c d1 with
+      | none => rfl
+      | some t' => rfl
+
+/-- `yieldTail` with the yield-counting trigger (iterable datasets; map-style before repo fix f1014eb). -/
+def yieldTailOld (c : Cfg) (s : State) (b : Nat) : State × Obs :=
+  if c.interval ≠ 0 ∧ (s.numYielded + 1) % c.interval = 0 then
+    match takeSnapshot c s with
+    | some s' => ({ s' with numYielded := s'.numYielded + 1 }, .item b)
+    | none => ({ s with mainSnaps := (popSnaps s.rcvdIdx s.mainSnaps none).2 }, .assertion)
+  else ({ s with numYielded := s.numYielded + 1 }, .item b)
+
+theorem yieldTail_iter (c : Cfg) (s : State) (b : Nat) (hit : c.iterable = true) :
+    yieldTail c s b = yieldTailOld c s b := by
+  unfold yieldTail yieldTailOld snapshotDue
+  simp only [hit, if_true]
+  by_cases h0 : c.interval = 0
+  · simp [h0]
+  · by_cases hd : (s.numYielded + 1) % c.interval = 0
+    · simp [h0, hd]
+    · simp [h0, hd]
 
 theorem yieldItem_rebase (c : Cfg) (o : List Obs) (b : Bool) (s : State) (r : Res) (x : Nat) :
     yieldItem c (rebase o b s) r x = rebase2 o b (yieldItem c s r x) := by
